@@ -1,4 +1,5 @@
 INIT Init
 NEXT Next
-INVARIANTS RowOK ChildNeedsApplication UploadImpliesChild OffWritesNothing MarkedWritesNoToken CrashAloneSuffices
+CONSTANT AllExtras = FALSE
+INVARIANTS RowOK ChildNeedsApplication UploadImpliesChild OffWritesNothing MarkedWritesNoToken CrashAloneSuffices OneTokenPerSequence
 CHECK_DEADLOCK FALSE
